@@ -1,9 +1,8 @@
 package main
 
-// Direct property probe for the stake opcodes (not part of the model): a contract that is the account of a
-// miner executes UNSTAKE(self, amount). The stake recorded for the miner must drop by what is escrowed for
-// refund ("stake refunds, each by exactly the amount involved"); the escrow is paid out by CheckAndMove at
-// height + 36000 (Proposal012) and then shows up in the sum of all balances.
+// Direct property probe for UNSTAKE: a contract that is the account of a miner executes UNSTAKE(self, amount).
+// The stake recorded for the miner must drop by what is escrowed for refund ("stake refunds, each by exactly the
+// amount involved"); the escrow is paid out by CheckAndMove at height + 36000 (Proposal012).
 
 import (
 	"encoding/json"
@@ -11,76 +10,51 @@ import (
 	"math/big"
 
 	"com.tuntun.rangers/node/src/common"
-	"com.tuntun.rangers/node/src/middleware/types"
 	"com.tuntun.rangers/node/src/service"
 )
 
-func unstakeCode(self common.Address, amount *big.Int) []byte {
-	var b []byte
-	b = append(b, push20(self)...)   // pointer address (popped second)
-	b = append(b, push32(amount)...) // value (popped first)
-	b = append(b, 0xef, 0x50, 0x00)  // UNSTAKE POP STOP
-	return b
-}
-
-type unstakeCase struct {
-	name   string
-	amount *big.Int
-}
-
 func searchUnstake(w *World, found map[string]bool) int {
 	half := new(big.Int).Div(oneRPG, big.NewInt(2))
-	cases := []unstakeCase{
-		{"1 RPG (exact)", rpg(1)},
-		{"0.5 RPG", half},
-		{"1.9 RPG", new(big.Int).Add(rpg(1), new(big.Int).Mul(big.NewInt(9), new(big.Int).Div(oneRPG, big.NewInt(10))))},
-		{"3 RPG", rpg(3)},
-	}
+	cases := []*big.Int{rpg(1), half, new(big.Int).Add(rpg(1), new(big.Int).Mul(big.NewInt(9), new(big.Int).Div(oneRPG, big.NewInt(10)))), rpg(3)}
 	n := 0
-	for _, c := range cases {
+	for _, amount := range cases {
 		w.univ = universe()
 		w.Reset(true)
 		src, k := eoas[0], contracts[0]
 		w.Set(src, rpg(5000))
-		// miner whose account is the contract k, paid for by src
-		m := types.Miner{Id: []byte("verif-c06-unstake-miner-000000001"), PublicKey: []byte{1}, VrfPublicKey: []byte{2},
-			Type: common.MinerTypeProposer, Stake: 2500, Account: k[:]}
-		bs, _ := json.Marshal(m)
-		tx := w.nextTx(&types.Transaction{Source: src.GetHexString(), Type: types.TransactionTypeMinerApply, Data: string(bs)})
-		w.queue = append(w.queue, &QTx{line: fmt.Sprintf("tx lock %s 2500 1", hexAddr(src)), tx: tx, feat: map[string]bool{"lock": true}, locked: rpg(2500)})
-		r0 := w.Exec()
-		if r0.Statuses != "s" {
+		w.Code(k, Script{{Kind: "ustk", Val: amount}})
+		w.minerSeq++
+		seq := w.minerSeq
+		w.QueueApply(src, seq, common.MinerTypeProposer, 2500, k, true)
+		if r0 := w.Exec(); r0.Statuses != "s" {
 			continue
 		}
-		w.adb.SetCode(k, unstakeCode(k, c.amount))
-		stakeBefore := service.MinerManagerImpl.GetMiner(m.Id, w.adb).Stake
+		stakeBefore := service.MinerManagerImpl.GetMiner(minerID(seq), w.adb).Stake
 		t := k
 		w.QueueContract(CtSpec{Src: src, Target: &t, GasLimit: "100000000", Value: "0"})
 		q := w.queue[len(w.queue)-1]
-		h := w.height + 1
-		w.escrowHeights[h+36000] = true
+		eb := w.escrowTotal()
 		res := w.Exec()
 		n++
 		if res.Panic != "" || res.Statuses != "s" {
 			continue
 		}
-		mi := service.MinerManagerImpl.GetMiner(m.Id, w.adb)
 		stakeAfter := uint64(0)
-		if mi != nil {
+		if mi := service.MinerManagerImpl.GetMiner(minerID(seq), w.adb); mi != nil {
 			stakeAfter = mi.Stake
 		}
 		stakeDrop := new(big.Int).Mul(new(big.Int).SetUint64(stakeBefore-stakeAfter), oneRPG)
-		escrowed := w.escrowTotal()
+		escrowed := new(big.Int).Sub(w.escrowTotal(), eb)
 		before := w.Total()
-		w.After(h+36000, []byte{0xca, 0x57})
+		w.After(w.height+36000, []byte{0xca, 0x57})
 		paid := new(big.Int).Sub(w.Total(), before)
 		if escrowed.Cmp(stakeDrop) > 0 {
 			key := "mint-unstake-refund-exceeds-stake"
 			if !found[key] {
 				found[key] = true
-				f := Found{Key: key, Desc: fmt.Sprintf("UNSTAKE(self, %s) by the contract account of a proposer with stake %d: recorded stake drops by %d RPG, but %s wei are escrowed for refund and %s wei are paid out at height+36000 (tx: %s)",
-					c.name, stakeBefore, stakeBefore-stakeAfter, escrowed.String(), paid.String(), q.line),
-					Replay: []string{"# go-only scenario: harness/cmd/c06/stakeop.go searchUnstake, amount " + c.amount.String()}}
+				f := Found{Key: key, Desc: fmt.Sprintf("UNSTAKE(self, %s wei) by the contract account of a proposer with stake %d: recorded stake drops by %d RPG, but %s wei are escrowed for refund; %s wei are paid out at height+36000 (tx: %s)",
+					amount.String(), stakeBefore, stakeBefore-stakeAfter, escrowed.String(), paid.String(), q.line),
+					Replay: snapshotLines(w)}
 				js, _ := json.Marshal(f)
 				fmt.Println("FOUND " + string(js))
 			}
